@@ -29,7 +29,7 @@ type c20Case struct {
 	Tail   []c12Rec `json:"tail,omitempty"`
 	TailAt int      `json:"tail_at,omitempty"`
 	// probe mode: which compression codes does the writer accept at all (each must be named by the schema)
-	Sync bool `json:"sync,omitempty"` // every second record goes through WriteSync
+	Sync     bool  `json:"sync,omitempty"` // every second record goes through WriteSync
 	Probe    bool  `json:"probe,omitempty"`
 	Accepted []int `json:"accepted,omitempty"`
 	Unnamed  []int `json:"unnamed,omitempty"`
